@@ -31,8 +31,8 @@ def codecOp (args : List String) : String :=
   | [name, hex] =>
     match codecLookup name, codecHexArg hex with
     | some (es, ds), some bs =>
-      match dec Env.default 0 ds bs with
-      | .ok (v, rest) => "ok " ++ codecHexOut (enc Env.default es v) ++ " " ++ toString rest.length
+      match dec Irregular.env 0 ds bs with
+      | .ok (v, rest) => "ok " ++ codecHexOut (enc Irregular.env es v) ++ " " ++ toString rest.length
       | .error .panic => "panic"
       | .error .unsupported => "unsupported"
       | .error _ => "err"
@@ -44,7 +44,7 @@ def codecStrictOp (args : List String) : String :=
   | [name, hex] =>
     match codecLookup name, codecHexArg hex with
     | some (_, ds), some bs =>
-      match decStrict Env.default 0 ds bs with
+      match decStrict Irregular.env 0 ds bs with
       | .ok _ => "1"
       | .error _ => "0"
     | _, _ => "bad-op"
